@@ -15,6 +15,20 @@ REPO = os.environ.get('VERIF_REPO', '/repo')
 KNOWN_FILE = os.path.join(VERIF, 'known_findings.json')
 
 
+def load_known() -> list[dict]:
+    """known_findings.json plus known_findings.d/*.json (one file per property)."""
+    out = []
+    with open(KNOWN_FILE) as f:
+        out += json.load(f)['findings']
+    d = os.path.join(VERIF, 'known_findings.d')
+    if os.path.isdir(d):
+        for fn in sorted(os.listdir(d)):
+            if fn.endswith('.json'):
+                with open(os.path.join(d, fn)) as f:
+                    out += json.load(f)['findings']
+    return out
+
+
 def jsonable(v: Any) -> Any:
     if isinstance(v, dict):
         return {str(k): jsonable(x) for k, x in v.items()}
@@ -61,9 +75,7 @@ class Check:
         self.failures: list[dict] = []        # unmatched
         self.known_hits: dict[int, int] = {}  # index in known list -> count
         self.notes: list[str] = []
-        with open(KNOWN_FILE) as f:
-            self.known = [k for k in json.load(f)['findings']
-                          if k['property'] == prop and k.get('status', 'known') == 'known']
+        self.known = [k for k in load_known() if k['property'] == prop and k.get('status', 'known') == 'known']
 
     # -- coverage bookkeeping -------------------------------------------------------
     def add(self, key: str, n: int = 1) -> None:
